@@ -142,7 +142,7 @@ func (w *World) ProduceBlock(dtSec int, miss []int) {
 		if i == 0 {
 			w.BlockEvents = append(w.BlockEvents, resp.Events...)
 			w.beginDigest = eventsDigest(resp.Events)
-		} else if d := eventsDigest(resp.Events); d != w.beginDigest {
+		} else if d := eventsDigest(resp.Events); d != w.beginDigest && !w.isFork(i) {
 			w.noteMismatch("events", fmt.Sprintf("BeginBlock events differ on replica %d at height %d", i, n.Header.Height))
 		}
 	}
@@ -179,7 +179,7 @@ func (w *World) ProduceBlock(dtSec int, miss []int) {
 			}
 			if i == 0 {
 				r0 = r
-			} else if r.Code != r0.Code || eventsDigest(r.Events) != eventsDigest(r0.Events) || !bytes.Equal(r.Data, r0.Data) {
+			} else if r.Code != r0.Code || (!w.isFork(i) && (eventsDigest(r.Events) != eventsDigest(r0.Events) || !bytes.Equal(r.Data, r0.Data))) {
 				w.noteMismatch("codes", fmt.Sprintf("tx result differs on replica %d at height %d: code %d vs %d", i, h, r.Code, r0.Code))
 			}
 		}
@@ -212,7 +212,7 @@ func (w *World) ProduceBlock(dtSec int, miss []int) {
 		if i == 0 {
 			w.BlockEvents = append(w.BlockEvents, resp.Events...)
 			w.endDigest = eventsDigest(resp.Events)
-		} else if d := eventsDigest(resp.Events); d != w.endDigest {
+		} else if d := eventsDigest(resp.Events); d != w.endDigest && !w.isFork(i) {
 			w.noteMismatch("events", fmt.Sprintf("EndBlock events differ on replica %d at height %d", i, h))
 		}
 	}
@@ -231,7 +231,7 @@ func (w *World) ProduceBlock(dtSec int, miss []int) {
 		}
 		if i == 0 {
 			h0 = hash
-		} else if !bytes.Equal(hash, h0) {
+		} else if !bytes.Equal(hash, h0) && !w.isFork(i) {
 			w.noteMismatch("apphash", fmt.Sprintf("app hash differs on replica %d at height %d: %x vs %x", i, h, hash, h0))
 		}
 	}
@@ -351,3 +351,7 @@ func anteRejected(r *TxResult) bool {
 	}
 	return false
 }
+
+// isFork: replica i is the chain restarted from an exported genesis (its history, hence its app hash and
+// height-dependent events, legitimately differ; tx results and bridge state must not).
+func (w *World) isFork(i int) bool { return w.Forked && i == w.ForkAt }
